@@ -399,22 +399,23 @@ def gen_detect(tree):
     s = st[0].orelse
     need(len(s) == 1 and isinstance(s[0], ast.If), 'detect_geometry: structured branch changed')
     a = s[0]
-    need(src(a.test) == 'seismic.ilines is not None and len(seismic.ilines) == 1' and src(a.body[-1]) == 'self.geom = Geometry2d(seismic.xlines)',
+    need(src(a.test) == 'seismic.ilines is not None and len(seismic.ilines) == 1' and src(a.body[-1]) == 'self.geom = Geometry2d(seismic.tracecount)',
          'detect_geometry: single-inline case changed', a)
     need(len(a.orelse) == 1 and isinstance(a.orelse[0], ast.If), 'detect_geometry: structured branch changed', a)
     b = a.orelse[0]
-    need(src(b.test) == 'seismic.xlines is not None and len(seismic.xlines) == 1' and src(b.body[-1]) == 'self.geom = Geometry2d(seismic.ilines)',
+    need(src(b.test) == 'seismic.xlines is not None and len(seismic.xlines) == 1' and src(b.body[-1]) == 'self.geom = Geometry2d(seismic.tracecount)',
          'detect_geometry: single-crossline case changed', b)
     need(src(b.orelse[-1]) == 'self.geom = Geometry3d(0, len(seismic.ilines), 0, len(seismic.xlines))',
          'detect_geometry: regular 3D case changed', b)
     return ['', '(* ---- SeismicFileConverter.detect_geometry: decision table ---- *)',
             'Inductive geom_kind := G2d (n_traces : Z) | GIrregular | G3d (n_il n_xl : Z).',
-            '(* unstructured: segyio found no inline/crossline geometry; il0 xl0 il1 xl1: fields 189/193 of the first and last header *)',
+            '(* unstructured: segyio found no inline/crossline geometry; il0 xl0 il1 xl1: fields 189/193 of the first and last header;',
+            '   in all three 2D branches the trace count is the FILE\'s trace count (Geometry2d(seismic.tracecount)) *)',
             'Definition detect_geometry (unstructured : bool) (il0 xl0 il1 xl1 tracecount n_ilines n_xlines : Z) : geom_kind :=',
             '  if unstructured then',
             '    (if (il0 =? 0) && (xl0 =? 0) && (il1 =? 0) && (xl1 =? 0) then G2d tracecount else GIrregular)',
-            '  else if (n_ilines =? 1) then G2d n_xlines',
-            '  else if (n_xlines =? 1) then G2d n_ilines',
+            '  else if (n_ilines =? 1) then G2d tracecount',
+            '  else if (n_xlines =? 1) then G2d tracecount',
             '  else G3d n_ilines n_xlines.']
 
 
